@@ -246,8 +246,9 @@ def mk_optical(spec):
 
 
 class Call:
-    def __init__(self, args, fn, tolerated=REJ, view_ok=False, identity_ok=False):
+    def __init__(self, args, fn, tolerated=REJ, view_ok=False, identity_ok=False, labels=()):
         self.args = args  # role -> caller-owned object
+        self.labels = tuple(labels)  # class labels of the operands (evidence only)
         self.fn = fn
         self.tolerated = tolerated
         self.view_ok = view_ok  # result may be a numpy view of an argument (extraction / wrapping)
@@ -400,6 +401,7 @@ def check_registry(case):
     res, status, labels = execute(form.name, call, tags)
     labs = (form.name,) + tuple(f"{form.name}|{x}" for x in labels if x.startswith("raised"))
     labs += tuple(x for x in labels if not x.startswith("raised"))
+    labs += tuple(f"{form.name}|{x}" for x in call.labels)
     if status == "raised":
         return Outcome(nontrivial=False, key=case, labels=labs, status="rejected")
     return Outcome(nontrivial=True, key=case, labels=labs, evals=1 + len(call.args))
@@ -997,14 +999,72 @@ F("ScalingModel(identity)(array)", "models", G_SIG,
   _model_array(lambda p: darsia.ScalingModel(scaling=1.0), identity_ok=True), weight=1)
 F("ScalingModel(image)", "models", G_SIG,
   _unary(lambda a, p: darsia.ScalingModel(scaling=p["s"])(a)), weight=2)
-F("LinearModel(array)", "models", G_SIG,
-  _model_array(lambda p: darsia.LinearModel(scaling=p["s"], offset=p["o"])))
-F("CombinedModel(array)", "models", G_SIG,
-  _model_array(lambda p: darsia.CombinedModel([darsia.LinearModel(scaling=p["s"], offset=p["o"]), _clip(p)])))
+
+# Affine models over their whole parameter domain, *including the neutral elements* (scaling 1.0 and
+# offset 0.0 are the defaults of LinearModel, so a default-constructed or offset-only calibrated model
+# is the common case, and neutral parameters are where an implementation is tempted to skip a step and
+# work on the caller's array), configured in every documented way: constructor keywords (given or left
+# to their defaults), update(), update_model_parameters() with and without dofs.
+LIN_VIA = ("ctor", "ctor-defaults", "update", "parameters:all", "parameters:dofs")
+G_LIN = fd(a=_specs(dims=(1, 2, 2, 3), dtypes=FLOATS, max_nt=2, max_comp=3),
+           lo=st.sampled_from([0.0, -1.0, 0.5]), hi=st.sampled_from([None, 1.0, 2.5]),
+           s=st.sampled_from([1.0, 2.0, 1.0, 0.5, -1.5, 3.0]), o=st.sampled_from([0.0, 1.0, -0.25, 0.25, -3.0]),
+           via=st.sampled_from(LIN_VIA), key=st.sampled_from(["", "", "model "]))
+
+
+def _affine_class(s, o):
+    return ("unit-scaling" if s == 1.0 else "scaling") + ("+offset" if o != 0.0 else ",no-offset")
+
+
+def _linear(p, owned):
+    """LinearModel with scaling p['s'] and offset p['o'], configured the way p['via'] says; arrays /
+    lists handed to the configuration calls are registered in ``owned`` (they belong to the caller)."""
+    s, o, via, key = p["s"], p["o"], p["via"], p["key"]
+    if via == "ctor":
+        return darsia.LinearModel(key, **{key + "scaling": s, key + "offset": o})
+    if via == "ctor-defaults":  # keywords that equal the documented defaults are left out
+        kw = {}
+        if s != 1.0:
+            kw[key + "scaling"] = s
+        if o != 0.0:
+            kw[key + "offset"] = o
+        return darsia.LinearModel(key, **kw)
+    m = darsia.LinearModel()
+    if via == "update":
+        m.update(scaling=s, offset=o)
+    elif via == "parameters:all":
+        par = np.array([s, o])
+        owned["parameters"] = par
+        m.update_model_parameters(par, "all" if key else None)
+    else:  # one degree of freedom at a time, the way a calibration of a subset of the dofs does it
+        ps, po, ds, do = np.array([s]), np.array([o]), ["scaling"], ["offset"]
+        owned.update({"parameters(scaling)": ps, "parameters(offset)": po, "dofs(scaling)": ds,
+                      "dofs(offset)": do})
+        m.update_model_parameters(ps, ds)
+        m.update_model_parameters(po, do)
+    return m
+
+
+def _linear_array(combined):
+    def build(p):
+        a = mk(p["a"]).img
+        owned = {"signal": a}
+        m = _linear(p, owned)
+        if combined:
+            models = [m, _clip(p)]
+            owned["models"] = models
+            m = darsia.CombinedModel(models)
+        return Call(owned, lambda: m(a), REJ_T, labels=(_affine_class(p["s"], p["o"]), f"via:{p['via']}"))
+    return build
+
+
+F("LinearModel(array)", "models", G_LIN, _linear_array(False), weight=6)
+F("CombinedModel(array)", "models", G_LIN, _linear_array(True))
 
 G_LAB = fd(a=S_2D_SCALAR, nl=st.integers(1, 4), fine=st.booleans(), mask=st.booleans(),
            rf=st.booleans(), lo=st.sampled_from([0.0, -1.0, 0.5]), hi=st.sampled_from([None, 1.0, 2.5]),
-           s=st.sampled_from([2.0, 0.5, -1.5]), o=st.sampled_from([0.0, 1.0]))
+           s=st.sampled_from([1.0, 2.0, 0.5, -1.5]), o=st.sampled_from([0.0, 1.0, -0.25]),
+           per_label=st.booleans())
 
 
 def _labels(p, shape):
@@ -1020,15 +1080,22 @@ def _het_linear(p):
     if p["fine"]:
         a = np.repeat(np.repeat(a, 2, axis=0), 2, axis=1)
     nl = len(np.unique(lab))
-    m = darsia.HeterogeneousLinearModel(lab, scaling=[p["s"]] * nl, offset=[p["o"]] * nl)
-    return Call({"signal": a, "labels": lab}, lambda: m(a), REJ_CV)
+    if p["per_label"]:  # every other label keeps the neutral scaling / another offset
+        scaling = [p["s"] if i % 2 == 0 else 1.0 for i in range(nl)]
+        offset = [p["o"] if i % 2 == 0 else 0.25 for i in range(nl)]
+    else:
+        scaling, offset = [p["s"]] * nl, [p["o"]] * nl
+    m = darsia.HeterogeneousLinearModel(lab, scaling=scaling, offset=offset)
+    return Call({"signal": a, "labels": lab, "scaling": scaling, "offset": offset}, lambda: m(a), REJ_CV,
+                labels=(_affine_class(p["s"], p["o"]),))
 
 
 def _het_model(p):
     a = mk(p["a"]).img
     lab_img = darsia.Image(_labels(p, a.shape), dimensions=list(p["a"]["dimensions"]), scalar=True)
     m = darsia.HeterogeneousModel(darsia.LinearModel(scaling=p["s"], offset=p["o"]), lab_img)
-    return Call({"signal": a, "labels": lab_img}, lambda: m(a), REJ_T + (IndexError,))
+    return Call({"signal": a, "labels": lab_img}, lambda: m(a), REJ_T + (IndexError,),
+                labels=(_affine_class(p["s"], p["o"]),))
 
 
 def _static_hom(p):
@@ -1544,7 +1611,9 @@ _RULE = ("registry: one case = (call form, Hypothesis-drawn operands of every im
          "vector, single / series, five dtypes, date / time metadata, default / user origin); deep snapshot "
          "of every argument (all attributes of images, array bytes+dtype+shape, caller-owned lists / dicts) "
          "and of np.random.get_state() before vs after, result shares no memory with an argument (views are "
-         "admitted only for extraction / wrapping forms), then the result is mutated through append / "
+         "admitted only for extraction / wrapping forms; affine signal models are drawn with their neutral / "
+         "default parameters (scaling 1, offset 0) as often as with general ones and configured through the "
+         "constructor, update() and update_model_parameters()), then the result is mutated through append / "
          "update_metadata / reset_origin / set_time and the arguments re-checked; non-trivial = the call "
          "returned (calls the code rejects are counted 'rejected'); chains: non-trivial = at least two "
          "executed calls; arithmetic: non-trivial = mixed dtypes, series / vector payload or a non-float "
